@@ -1,4 +1,43 @@
-import ErgoModel.Exec
+/-
+  C03 — A killed process never bricks the store or loses acknowledged work.
+  Byte-level model: ErgoModel/Storage.lean.  `classify`/`encode` are arbitrary subject to `Codec` (checked against
+  the real encoding/json by the differential harness); kernel: a killed write(2) leaves a prefix of its buffer.
+-/
+import ErgoProofs.Lemmas.StorageThm
 namespace Ergo
-theorem C03_placeholder : True := trivial
+open Storage
+
+variable {classify : Bytes → LineClass} {encode : Event → Bytes} {limit : Nat}
+
+/-- however many crashes (writes cut short at any byte offset), appends and rewrites alternate, starting from any
+    readable file, every later read succeeds -/
+theorem C03_always_readable (hc : Codec classify encode) (f g : Bytes) (es : List Event)
+    (hr : readEvents classify limit f = .ok es) (h : FileReach classify encode limit f g) :
+    ∃ es', readEvents classify limit g = .ok es' :=
+  reach_readable hc f g es hr h
+
+/-- everything visible before stays visible, in order: only the interrupted command's own events can be missing -/
+theorem C03_acknowledged_kept (hc : Codec classify encode) (f g : Bytes) (es : List Event)
+    (hr : readEvents classify limit f = .ok es) (h : AppendReach classify encode limit f g) :
+    ∃ more, readEvents classify limit g = .ok (es ++ more) :=
+  appendReach_prefix hc f g es hr h
+
+/-- a later mutation on ANY readable (however torn) file takes effect completely and leaves the store readable and closed -/
+theorem C03_later_mutation_takes_effect (hc : Codec classify encode) (f : Bytes) (es evs : List Event)
+    (hr : readEvents classify limit f = .ok es) (hs : Short encode limit evs) :
+    readEvents classify limit (appendFile classify encode f evs) = .ok (es ++ evs) ∧
+    Closed (appendFile classify encode f evs) :=
+  appendFile_reads hc f es evs hr hs
+
+/-- a write cut short at byte k leaves everything from before plus a prefix of the interrupted batch -/
+theorem C03_torn_write (hc : Codec classify encode) (f : Bytes) (es evs : List Event) (k : Nat)
+    (hr : readEvents classify limit f = .ok es) (hs : Short encode limit evs) :
+    ∃ n, n ≤ evs.length ∧ readEvents classify limit (appendTorn classify encode f evs k) = .ok (es ++ evs.take n) :=
+  appendTorn_reads hc f es evs k hr hs
+
+/-- the repair step itself loses nothing a reader could see -/
+theorem C03_repair_invisible (f : Bytes) (es : List Event) (hr : readEvents classify limit f = .ok es) :
+    readEvents classify limit (repairTail classify f) = .ok es ∧ Closed (repairTail classify f) :=
+  readEvents_repairTail f es hr
+
 end Ergo
